@@ -378,6 +378,30 @@ ALL = ["C%02d" % i for i in range(1, 21)]
 PENDING_REASON = "not claimed yet: the model/proof for this property is still under construction in this development (see DESIGN.md section 12 build order); no check is registered until its theorem file compiles without admits and its correspondence stream runs"
 
 
+# additions of session 3 (appended to the level texts above)
+EXTRA = {
+    "C01": "ALSO PROVED, calibration runs -- C01_its_tier_calibration: the ITS tier for the CDW-extended grammar Spec/GrammarItsCdw.v (the data of a page optionally "
+           "led by a calibration data word right behind the first TDH that announces data; user fields equal to those of the CDW before it on the link, or word index 0), "
+           "proved on top of the ITS-tier lemmas by frame lemmas for the start-of-data flag and the remembered CDW that hold for EVERY state and word; its membership test "
+           "(C01_calibration_membership_test_sound) is extracted and run on every generated calibration link.",
+    "C02": "ALSO: C02_every_word_is_judged (no word crashes a validator -- C04 --, so the theorems for TDT rules and unrecognised identifiers carry no `unless it crashes` "
+           "escape any more); C02_cdw_layout / C02_cdw_rule / C02_cdw_elsewhere_is_invalid_data (the CDW accessors read the documented fields; [E81] EXACTLY when the user "
+           "fields change with a non-zero index against the remembered CDW; a 0xF8 word anywhere but at the start of a packet's data is an invalid data word [E70]); the "
+           "catalogue has two CDW entries on calibration streams.",
+    "C04": "ALSO (session 3): C04_fatal_lane_beyond_barrel_no_panic (defect F17, found while proving the next theorem, repaired by a fix: commit), "
+           "C04_only_invalid_layer_site_reachable (EVERY mode incl. `check all its-stave`, every configuration, every packet list: a validator runs through or stops at "
+           "Stave::from_feeid's site, and then a packet names layer 7 -- recorded finding F6), C04_whole_run_panics_only_for_layer_7 / C04_whole_run_outcomes (the same "
+           "for the whole `check` run: scanner, dispatcher, all validators, collector), C04_frame_view_panics_only_for_layer_7 / C04_frame_view_outcomes / "
+           "C04_known_finding_layer_7_witness (the two frame views); the panic prediction of the extracted run and view models is compared with the binary on every unfiltered "
+           "run; a fixed corpus of the crash inputs of every recorded or repaired finding and of inputs longer than the reader's look-ahead runs first.",
+    "C13": "ALSO: since defect F17 was repaired C13_frame_verdict and C13_lane_count_rule carry no hypothesis on the lane numbers of the fatal list; "
+           "C13_fatal_lanes_form_a_set (over ANY sequence of frames the list holds exactly the lanes that announced, each once -- lane A, lane B, lane A again included; "
+           "instantiated with the fact re-read from add_fatal_lanes, which now demands a guarded push or sort + dedup).",
+}
+for _k, _v in EXTRA.items():
+    CLAIMED[_k]["text"] = CLAIMED[_k]["text"] + " " + _v
+
+
 def main():
     checks = []
     for pid in ALL:
